@@ -17,9 +17,9 @@ def parse_cases(output):
     return cases
 
 
-def mc_lang(run, name, depth, mode, emit, samplek, names=NAMES3, nv=3, simulate=None, timeout=3000):
+def mc_lang(run, name, depth, mode, emit, samplek, names=NAMES3, nv=3, simulate=None, timeout=3000, checkk=1):
     d = fresh_dir(run.prop, name)
-    c = cfg({"NV": nv, "MaxDepth": depth, "Mode": mode, "Emit": emit, "SampleK": samplek}, extra=names)
+    c = cfg({"NV": nv, "MaxDepth": depth, "Mode": mode, "Emit": emit, "SampleK": samplek, "CheckK": checkk}, extra=names)
     if simulate:
         res = run_tlc("MC_Lang", c, d, workers=8, timeout=timeout, simulate=simulate, extra=["-depth", str(depth + 1)], coverage=False)
         m = re.search(r"The number of states generated: (\d+)", res.output)
@@ -202,7 +202,7 @@ def record_texts(run, count, props, label="texts"):
 
 def c08(run):
     t = run.tier == "thorough"
-    L = 5 if t else 4
+    L = 6 if t else 5
     P = 3
     run.rule = ("MC_Syntax: every token sequence over the 20-class alphabet up to length %d is parsed by the grammar (TLC) and by the real parser "
                 "(representative and random member/spelling/layout renderings): accept <=> sentence, same tree; every string of <= %d pieces of "
@@ -233,14 +233,15 @@ def c08(run):
 
 def c06(run):
     t = run.tier == "thorough"
-    run.rule = ("MC_Lang Mode=fix: every spine body of depth <= 1 (thorough: 2) over {a,X} plus simulated depth-3 spines (thorough: also {a,X,b}, depth 1): when semantically monotone "
+    run.rule = ("MC_Lang Mode=fix: every spine body of depth <= 1 and a 1/40 sample of depth 2 (thorough: all of depth 2) over {a,X} plus simulated depth-3 spines (thorough: also {a,X,b}, depth 1): when semantically monotone "
                 "in X (all subset pairs), lfp/gfp are the least/greatest fixed point among ALL subsets and pre/post-fixed points "
                 "(Knaster-Tarski), reached within |Asg|+1 iterations by Sem and by the evaluator model; the same bodies with expected tables "
                 "evaluated by the real solver with all four keywords; library fp() call counts; non-trivial = monotone bodies mentioning X")
     if t:
         path, cases, res = mc_lang(run, "mc_fix_d2", 2, "fix", True, 3, names=NAMES2, nv=2, timeout=7200)
     else:
-        path, cases, res = mc_lang(run, "mc_fix_d1", 1, "fix", True, 1, names=NAMES2, nv=2, timeout=7200)
+        # every depth <= 1 body, and a seed-dependent 1/40 of the 750 k depth-2 bodies (checked and replayed)
+        path, cases, res = mc_lang(run, "mc_fix_d2s", 2, "fix", True, 1, names=NAMES2, nv=2, timeout=7200, checkk=40)
     # deeper bodies by simulation (random spines of depth 3; every successor of a visited state is checked)
     p2, cases2, res2 = mc_lang(run, "sim_fix_d3", 3, "fix", True, 6, names=NAMES2, nv=2, simulate="num=%d" % (40 if t else 6), timeout=7200)
     with open(path, "a") as fh:
